@@ -1,7 +1,7 @@
 // ---- prelude/attrspec.rs : what the attribute pass must compute (C07), stated over the opaque tree ----
 pub open spec fn is_comment_kind(k: SyntaxKind) -> bool { k == SyntaxKind::LineComment || k == SyntaxKind::BlockComment }
 /// the text contains the substring "@typstyle off"
-pub uninterp spec fn contains_directive(s: Seq<char>) -> bool;
+pub open spec fn contains_directive(s: Seq<char>) -> bool { contains_substr(s, "@typstyle off"@) }
 pub open spec fn is_directive(n: &SyntaxNode) -> bool { is_comment_kind(n.kind_s()) && contains_directive(n.text_s()) }
 /// whitespace and `#` between the directive and its target are ignored (property statement)
 pub open spec fn skippable_kind(k: SyntaxKind) -> bool { k == SyntaxKind::Space || k == SyntaxKind::Hash }
